@@ -307,7 +307,7 @@ func runC14(cfg *vh.Config) error {
 	restore := quietStdout()
 	defer restore()
 	res := vh.NewResult("C14", cfg.Seed)
-	res.Rule = "random bundles of 1-3 packages x 1-4 files x 1-4 declarations (objects with fields of every type/rule/wrapper, references across files and packages, enums with info maps, oneofs, services with options, topics, entities); each bundle compiled and printed under 8 (quick) / 64 (thorough) configurations: shuffled file and package listings, fresh PackageSet per package, one reused set with shuffled CompilePackage call order, each package compiled twice on a reused set; Go randomises map iteration per range, so repetition explores the map orders. non-trivial = distinct bundle with at least two output files"
+	res.Rule = "random bundles of 1-3 packages x 1-4 files x 1-4 declarations (objects with fields of every type/rule/wrapper, references across files and packages, enums with info maps, oneofs, services with options, topics, entities); each bundle compiled and printed under 8 (quick) / 64 (thorough) configurations: shuffled file and package listings, fresh PackageSet per package, one reused set with shuffled CompilePackage call order, each package compiled twice on a reused set; Go randomises map iteration per range, so repetition explores the map orders; history stream: 6 (quick) / 24 (thorough) families of 3 DIFFERENT bundles that share source and output file paths (same holder file, different import sets over unrelated, sibling and nested packages whose first name parts collide), each family compiled and printed in sequence in 3 fresh processes (one rotation each), every variant printed after others compared byte for byte with the process that printed it first. non-trivial = distinct bundle with at least two output files"
 	cf := &vh.CasesFile{
 		Header: "From Coq Require Import String List NArith.\nFrom J5V.model Require Import CmpbFields CmpbFieldsCorr CmpbOrder CmpbOrderCorr.",
 		Type:   "c14case",
